@@ -345,6 +345,7 @@ type Result struct {
 	ArithOps      int  // number of arithmetic/logic/storage operators executed
 	Inexact       bool // some value consumed by an operator had E > 0
 	Fractional    bool // some operand was not an integer
+	BigOperand    bool // some operand had a magnitude above 32000
 	EndcharDepth  int  // nesting depth at which endchar was executed
 	TrailingBytes int  // bytes after endchar in the active code and its callers
 	ImplicitVStem bool // a mask operator declared vstems implicitly
@@ -403,6 +404,9 @@ func (it *interp) push(n Num) *Error {
 	}
 	if n.V != math.Trunc(n.V) {
 		it.res.Fractional = true
+	}
+	if math.Abs(n.V) > 32000 {
+		it.res.BigOperand = true
 	}
 	it.stack = append(it.stack, n)
 	if len(it.stack) > it.res.MaxStack {
